@@ -264,6 +264,16 @@ class Ctx:
         self.monitor_hits.append({"what": what, "signature": signature, "replay": replay, "count": 1})
 
 
+def match_known(sig: str, known_sigs: dict[str, dict]) -> dict | None:
+    """exact signature, or a listed signature ending in `*` (a documented class of inputs) as a prefix"""
+    if sig in known_sigs:
+        return known_sigs[sig]
+    for ks, k in known_sigs.items():
+        if ks.endswith("*") and sig.startswith(ks[:-1]):
+            return k
+    return None
+
+
 def load_known() -> list[dict]:
     f = VERIF / "known_findings.json"
     if not f.exists():
@@ -364,10 +374,14 @@ def run_check(prop: str, tier: str, seed: int, replay: str | None = None) -> int
     out_lines: list[str] = []
     new_hits = []
     known_seen = []
+    printed = set()
     for h in ctx.monitor_hits:
-        if h["signature"] in known_sigs:
+        k = match_known(h["signature"], known_sigs)
+        if k is not None:
             known_seen.append(h["signature"])
-            out_lines.append(f"KNOWN-FINDING: property={prop} {known_sigs[h['signature']].get('what', h['what'])}")
+            if k["signature"] not in printed:
+                printed.add(k["signature"])
+                out_lines.append(f"KNOWN-FINDING: property={prop} {k.get('what', h['what'])}")
         else:
             new_hits.append(h)
     rc = 0
